@@ -125,9 +125,9 @@ Print Assumptions C05_valid_uri_is_iriref.
    The reader model of Grammar/Reader.v (W3CNTriplesParser / NQuadsParser.parseline with the module's regular
    expressions, unquote = decodeUnicodeEscape) is tied to the source by the correspondence suite "ntread" and by the
    pinned regular expressions.  Completeness: every line the W3C grammar accepts as one statement - whatever white
-   space, comment, ECHAR / \u / \U spelling its author chose - is read by rdflib's reader (as repaired by 4cbe7459)
-   to the same statement, outside the regions of the three open reader findings:
-     C05f a blank node label with a non-ASCII character, C05g an IRIREF with a raw Unicode white space character,
+   space, comment, ECHAR / \u / \U spelling its author chose - is read by rdflib's reader (as repaired by 4cbe7459
+   and 4d2427e4) to the same statement, outside the regions of the two open reader findings:
+     C05f a blank node label with a non-ASCII character,
      C05h an IRIREF none of whose colons is written as such   ([line_kf nq l = 0]).
    Blank nodes keep their document labels in the model (the harness maps rdflib's fresh nodes back through
    bnode_context), so "up to blank node relabelling" is equality here.  A line is what readline() returns: no CR, no LF.
@@ -172,7 +172,7 @@ Example C05_reads_legal_nonvacuous :
 Proof. vm_compute. repeat split; reflexivity. Qed.
 
 Theorem C05_reader_regexes_pinned_partial :
-  nt_uriref_src = [60; 40; 91; 94; 58; 93; 43; 58; 91; 94; 92; 115; 34; 60; 62; 93; 42; 41; 62]
+  nt_uriref_src = [60; 40; 91; 94; 58; 93; 43; 58; 91; 94; 92; 120; 48; 48; 45; 92; 120; 50; 48; 34; 60; 62; 93; 42; 41; 62]
   /\ nt_r_wspace_src = [91; 32; 92; 116; 93; 42]
   /\ nt_r_wspaces_src = [91; 32; 92; 116; 93; 43]
   /\ nt_validate = false.
